@@ -141,3 +141,39 @@ def init_rs_contract(prop):
         ensures={'budget': 'self.maxR == maxR and self.maxT == maxT',
                  'fresh_window': 'self.R == 0 and self.T is None'},
     )
+
+
+def declare_handlers(w):
+    """the pool's service objects (threads) as heap classes"""
+    J = ref('Job')
+    w.cls('ResultHandler', module='pool', fields={
+        'outqueue': ValS, 'get': ValS, 'cache': dict_of(IntS, J), 'poll': ValS,
+        'join_exited_workers': ValS, 'putlock': opt(ref('Sem')),
+        'restart_state': ref('restart_state'), '_it': opt(ValS),
+        '_shutdown_complete': BoolS, 'check_timeouts': opt(ValS),
+        'on_job_ready': opt(ValS), 'on_ready_counters': opt(dict_of(IntS, ref('Counter'))),
+        'state_handlers': ValS, 'on_state_change': ValS, '_state': IntS,
+    })
+    w.cls('TimeoutHandler', module='pool', fields={
+        'processes': list_of(ref('WorkerP')), 'cache': dict_of(IntS, J),
+        't_soft': opt(RealS), 't_hard': opt(RealS), '_it': opt(ValS), '_state': IntS,
+    })
+    w.cls('TaskHandler', module='pool', fields={
+        'taskqueue': ValS, 'put': ValS, 'outqueue': ValS, 'pool': list_of(ref('WorkerP')),
+        'cache': dict_of(IntS, J), '_state': IntS,
+    })
+    w.classes['Counter'].methods['get_lock'] = lambda ex, a, k: SV(ValS, z3.Const('counter_lock', Val))
+
+
+# every handle in the cache is filed under its own id and points back to
+# this cache (established by the constructors: `cache[self._job] = self`)
+def cache_inv(c):
+    return ('all(implies(has(%s, k), allocated(get(%s, k)) and get(%s, k)._job == k and get(%s, k)._cache == %s '
+            'and allocated(get(%s, k)._event)) for k in ints())' % (c, c, c, c, c, c))
+
+
+def ids_unique(c):
+    """job ids are pairwise distinct (itertools.count): two handles with the
+    same id are the same object"""
+    return ('all(implies(a._job == b._job and a._cache == %s and b._cache == %s, a == b) '
+            'for a in refs("Job") for b in refs("Job"))' % (c, c))
